@@ -147,7 +147,12 @@ def _via_sim(shard):
 def run_shard(shard):
     if shard["backend"] == "cuda" and not IN_SIM:
         return _via_sim(shard)
-    return {"A": _part_A, "B": _part_B, "C": _part_C, "D": _part_D, "V": _part_V, "A1": _single}[shard["part"]](shard)
+    del kern.MODIFIED[:]
+    res = {"A": _part_A, "B": _part_B, "C": _part_C, "D": _part_D, "V": _part_V, "A1": _single}[shard["part"]](shard)
+    for kname, which, what in kern.MODIFIED[:2]:
+        # the statistics are functions of the record: a kernel that writes into it changes what every later bin sees
+        res["failures"].append(fw.fail(f"input-modified/{kname}/{which}", f"kernel {kname} changed its input array '{which}' ({what}); shard {shard}", dict(shard)))
+    return res
 
 
 def replay(case):
